@@ -51,6 +51,32 @@ pub fn show_terr(e: &TemplateError) -> String {
     }
 }
 
+/// the hook's structural dump as one line: `dump <entries> F=<hidden state>`; an entry is
+/// `depth,kind,label,constraint,D|.` (labels hex), the hidden state of a node its two shortcut flags and dirty mark
+#[cfg(feature = "hook")]
+fn dump_line(router: &Router<u32>) -> String {
+    match catch_unwind(AssertUnwindSafe(|| wayfind::verif::tree_dump(router))) {
+        Ok(text) => {
+            let mut skel = vec![];
+            let mut hidden = vec![];
+            for l in text.lines() {
+                let f: Vec<&str> = l.split(' ').collect();
+                if f.len() != 6 {
+                    return "dump-unavailable".to_owned();
+                }
+                skel.push(f[..5].join(","));
+                hidden.push(f[5].to_owned());
+            }
+            format!("dump {} F={}", skel.join(";"), hidden.join(";"))
+        }
+        Err(p) => panic_msg(p),
+    }
+}
+#[cfg(not(feature = "hook"))]
+fn dump_line(_router: &Router<u32>) -> String {
+    "dump-unavailable".to_owned()
+}
+
 struct R {
     router: Router<u32>,
     checks: Vec<(&'static str, Check)>,
@@ -462,6 +488,11 @@ impl Exec {
                     Err(p) => panic_msg(p),
                 };
                 (line.to_owned(), out)
+            }
+            ["dump", r] => {
+                let Some(r) = num(r) else { return bad() };
+                let Some(x) = self.routers.get(&r) else { return (line.to_owned(), "bad-router".to_owned()) };
+                (line.to_owned(), dump_line(&x.router))
             }
             ["clone", r, r2] => {
                 let (Some(r), Some(r2)) = (num(r), num(r2)) else { return bad() };
